@@ -33,7 +33,14 @@ class CustomTransportFault(TransportError):
     """A transport's own error class (the Transport contract is TransportError, not its subclasses)."""
 
 
-FAULT_CLASSES = {"failed": InjectedWriteFault, "plain": TransportError, "custom": CustomTransportFault}
+class BareTransportFault(TransportFailedError):
+    """Raised without arguments, as `raise TransportFailedError from err` does (str(exc) == "", exc.args == ())."""
+
+    def __init__(self, *args) -> None:
+        super().__init__()
+
+
+FAULT_CLASSES = {"failed": InjectedWriteFault, "plain": TransportError, "custom": CustomTransportFault, "bare": BareTransportFault}
 
 
 class ScriptTransport(Transport):
@@ -51,6 +58,7 @@ class ScriptTransport(Transport):
         self.fail_writes = 0
         self.fail_plan: deque[bool] | None = None  # per-attempt plan (True = fail) consumed first
         self.fault_class = InjectedWriteFault
+        self.fail_after_delivery = False
         self.slow_writes = 0  # number of upcoming writes that take `slow_seconds` of (virtual) time before they happen
         self.slow_seconds = 30.0
         self.on_write: Callable[[str], None] | None = None
@@ -84,6 +92,11 @@ class ScriptTransport(Transport):
         elif self.fail_writes > 0:
             self.fail_writes -= 1
             fail = True
+        if fail and self.fail_after_delivery:
+            # the bytes reach the peer, then the transport reports an error (a reset while draining, a lost PUBACK)
+            self.attempts.append((decoded_message, True))
+            self.writes.append(decoded_message)
+            raise self.fault_class("injected fault after the line was delivered")
         self.attempts.append((decoded_message, not fail))
         if fail:
             raise self.fault_class("injected write fault")
